@@ -209,7 +209,7 @@ def run(ctx):
         viol(f'reduce of integer-typed member series raised {type(E).__name__}: {E}', dict(probe='integer-series-reduce'))
     # seeds given explicitly per replicate (iterpars) are in effect exactly as given: replicate i equals the same sim built with that seed
     try:
-        kind_ = 'sir_mf'; seeds = [rng.randrange(1, 10**4) for _ in range(3)]
+        kind_ = 'sir_mf'; seeds = [rng.randrange(1, 10**4), 0, rng.randrange(1, 10**4)]      # 0 is a seed like any other
         runs = ss.multi_run(make_sim(kind_, 1), n_runs=3, iterpars=dict(rand_seed=seeds), parallel=False)
         ctx.count(('iterpars-seeds', tuple(seeds)), nontrivial=True); ctx.dist('explicit seeds through iterpars')
         for i, (r, sd) in enumerate(zip(runs, seeds)):
